@@ -11,6 +11,12 @@ import (
 func nondetInt() int
 func nondetBool() bool
 func nondetString() string
+
+// nondetText: an arbitrary string that is only ever treated as text (payload data, event types, ids). Symbolically the
+// same as nondetString; natively a value the solver left unconstrained is rendered with surrounding blanks, a control
+// character, a quote, a backslash, a percent verb, '<' and a byte that is not UTF-8, so that quoting, trimming, formatting
+// and escaping code is exercised by every replay
+func nondetText() string
 func nondetBytes() []byte
 func verifAssume(c bool)
 func verifAssert(c bool, id string)
